@@ -65,3 +65,7 @@ package prelude
 //@ func Now
 //@   trusted
 //@   modifies nothing
+
+//@ func Unix
+//@   trusted
+//@   pure
